@@ -60,7 +60,7 @@ def patch_spec(case):
     spec["tdgl.solver.runner"].update(h5py=h5, tempfile=fakeh5.FakeTempfile(fs), os=fos, tqdm=fakeh5.FakeTqdm, datetime=fakeh5.FakeDatetime,
                                       Path=fakeh5.make_path_class(fs), input=lambda prompt="": case.params.get("_answer", "n"))
     spec["tdgl.solver.solver"].update(datetime=fakeh5.FakeDatetime, os=fos)
-    spec["tdgl.solution.solution"].update(h5py=h5, os=fos, datetime=fakeh5.FakeDatetime)
+    spec["tdgl.solution.solution"].update(h5py=h5, os=fos, datetime=fakeh5.FakeDatetime, shutil=fakeh5.FakeShutil(fs))
     spec["tdgl.solution.data"].update(h5py=h5)
     spec.setdefault("tdgl.device.device", {}).update(h5py=h5, os=fos)
     return spec
